@@ -139,6 +139,15 @@ func (s *server) processPushlog(
 	if err != nil {
 		return nil, err
 	}
+	// The announced CID must be the CID of the block that is verified below. The merge that
+	// follows loads the commit by this CID from the blockstore and does not verify signatures.
+	blockLink, err := block.GenerateLink()
+	if err != nil {
+		return nil, err
+	}
+	if !blockLink.Cid.Equals(headCID) {
+		return nil, NewErrPushLogCIDMismatch(headCID, blockLink.Cid)
+	}
 
 	// No need to check access if the message is for replication as the node sending
 	// will have done so deliberately.
